@@ -221,6 +221,27 @@ def job_recv(job):
                         diff = [i for i, (a, b) in enumerate(zip(p0, proj1)) if a != b]
                         _v(viols, "priority-changed-state", "PRIORITY(sid=%d) in %s/%s changed stream/flow state (projection fields %s)" % (
                             sid, "client" if client else "server", state, diff), case, state=state, fields=str(diff))
+    # ---- several priority-bearing frames: each event keeps its own values (also after later frames were processed)
+    for (a, b) in (((1, 3, 7, False), (3, 0, 200, True)), ((5, 0, 1, True), (5, 7, 256, False)), ((101, 1, 16, False), (2, 101, 99, True))):
+        fa, fb = wire.priority(*a), wire.priority(*b)
+        for mode in ("one-call", "two-calls"):
+            conn = pickle.loads(blob)
+            if mode == "one-call":
+                o = H.recv(conn, pre + fa.serialize() + fb.serialize())
+                evs = list(o.events) if o.kind == "ok" else []
+            else:
+                o1 = H.recv(conn, pre + fa.serialize())
+                o = H.recv(conn, fb.serialize())
+                evs = (list(o1.events) if o1.kind == "ok" else []) + (list(o.events) if o.kind == "ok" else [])
+            n += 1
+            nt += 1
+            outcomes["recv:two-frames"] = outcomes.get("recv:two-frames", 0) + 1
+            pus = [e for e in evs if type(e).__name__ == "PriorityUpdated"]
+            got = [(e.stream_id, e.depends_on, e.weight, e.exclusive) for e in pus]
+            if o.kind != "ok" or got != [a, b] or (len(pus) == 2 and pus[0] is pus[1]):
+                _v(viols, "priority-received-wrong", "two PRIORITY frames %r, %r (%s) in %s/%s reported as %r" % (
+                    a, b, mode, "client" if client else "server", state, got),
+                   {"fam": "recv", "client": client, "state": state, "hex": fa.serialize().hex()}, state=state, outcome="two-frames:" + mode)
     return {"evaluations": n, "outcomes": outcomes, "nontrivial": nt, "violations": list(viols.values()),
             "samples": [{"family": "recv", "role": "client" if client else "server", "state": state,
                          "frame": "PRIORITY sid=101 dep=3 weight=256 exclusive"}]}
